@@ -9,6 +9,10 @@ The parsing/printing helpers are reused by the C19 driver.
   mapkey <gen> <kvsA> <kvsB>  => <found b in {a}> <len {a,b}>
   merge  <gen> <kvsA> <kvsB>  => <kvs>
   encode <gen> <kvs> <emits>  => x<encoded>
+  nilset <gen> <nil|zero|new|empty|filtered> <the same, other operand> x<key> <idx>
+         => <Len> <Value ok> <HasValue> <Get ok> <ToSlice> <Iter count> <l.Equals(o)> <o.Equals(l)> <o.Equivalent() found in map{l.Equivalent()}> x<Encoded>
+  iter   <gen> <kvs> <k>        => <attributes visited by for it.Next()> <IndexedAttribute indices are 0,1,2,… and Label = Attribute> <it.Len()>
+                                   <Attribute() past the end> <Next() past the end> <ToSlice() of a second iterator after k Next calls> <its Next() afterwards>
   seq    <gen> <op> | <op> | …  => <results of op 1> | <results of op 2> | … ;; <the same results read again at the end>
          op = set <kvs> | newset <kvs> <filter> | filter <i> <filter> | merge <i> <j> | value <i> x<key>
          (i, j index the Sets created so far: set, newset and filter append one each);
@@ -88,8 +92,8 @@ def typeNo : Value → Nat
 def parseFilter (s : String) : Option (Option (KV → Bool)) :=
   if s = "nil" then some none
   else match (s.splitOn ".").head? with
-    | some "allow" => (dotted s).mapM parseBytes |>.map (fun ks => some (fun kv => ks.contains kv.key))
-    | some "deny" => (dotted s).mapM parseBytes |>.map (fun ks => some (fun kv => !ks.contains kv.key))
+    | some "allow" => (dotted s).mapM parseBytes |>.map (fun ks => some (allowKeysFilter ks))
+    | some "deny" => (dotted s).mapM parseBytes |>.map (fun ks => some (denyKeysFilter ks))
     | some "vt" => (dotted s).mapM String.toNat? |>.map (fun ts => some (fun kv => ts.contains (typeNo kv.val)))
     | _ => none
 
@@ -203,7 +207,8 @@ def stepLine (_ : Unit) (toks : List String) : Unit × Option Verdict :=
     let br := tags [(kvs.isEmpty, "empty"), (hasDupKey kvs, "dup"), (!kvs.isEmpty && !hasDupKey kvs, "nodup"),
       (f.isNone, "nilfilter"), (f.isSome && m.dropped.isEmpty, "div0"), (!m.dropped.isEmpty, "dropped"),
       (m.set.length ≤ 10 && !m.set.isEmpty, "fixed"), (m.set.length > 10, "reflect"),
-      (kvs != sortStable kvs, "unsorted")]
+      (kvs != sortStable kvs, "unsorted"), (decide (kvs.length > 20), "sort-merge-rounds"),
+      (decide (kvs.length ≤ 20) && decide (kvs.length ≥ 2), "sort-insertion-only")]
     pure { agree, spec := okFail spec, nontrivial := kvs.length ≥ 2, branches := br,
            model := s!"{showKVs m.set} {showKVs m.dropped} {showKVs m.after}" }
   | ["filter", _, kvsS, fS], [keptS, dropS, afterS] => do
@@ -280,7 +285,7 @@ def stepLine (_ : Unit) (toks : List String) : Unit × Option Verdict :=
     let o ← parseKVs oS
     let a := newSet ka
     let b := newSet kb
-    let m := mergeIter a b
+    let m := mergeIterSM a b   -- the state machine of iterator.go
     let spec := Spec.mergeOK (Spec.canon ka) (Spec.canon kb) o
     let shared := a.any (fun x => b.any (fun y => x.key == y.key))
     let br := tags [(a.isEmpty, "a-empty"), (b.isEmpty, "b-empty"), (shared, "tie"), (!shared, "disjoint")]
@@ -302,6 +307,52 @@ def stepLine (_ : Unit) (toks : List String) : Unit × Option Verdict :=
     let br := tags [(s.isEmpty, "empty"), (s.length == 1, "one"), (s.length > 1, "many"), (esc, "escaped")]
     pure { agree := m == o && emitsOK, spec := okFail spec, nontrivial := !s.isEmpty, branches := br,
            model := hexOf m }
+  | ["nilset", _, which, oS, kS, iS], [lenS, okvS, hasS, okgS, slS, itS, eqS, eqrS, mapS, encS] => do
+    let mk (w : String) : Option SetP :=
+      if w = "nil" then some none else if w = "zero" then some (some none)
+      else if w = "new" || w = "empty" || w = "filtered" then some (some (computeDistinct [])) else none
+    let l ← mk which
+    let o ← mk oS
+    let _ ← parseHex kS
+    let idx ← iS.toInt?
+    let olen ← lenS.toNat?
+    let okv ← b01 okvS
+    let ohas ← b01 hasS
+    let okg ← b01 okgS
+    let osl ← parseKVs slS
+    let oit ← itS.toNat?
+    let oeq ← b01 eqS
+    let oeqr ← b01 eqrS
+    let omap ← b01 mapS
+    let oenc ← parseHex encS
+    let agree := olen == setLen l && okv == false && ohas == false && okg == (setGet l idx).isSome && osl == setToSlice l &&
+      oit == setLen l && oeq == setEquals l o && oeqr == setEquals o l && omap == distinctEq (setEquivalent l) (setEquivalent o) &&
+      oenc == encode (fun _ => []) (setToSlice l)
+    let spec := olen == 0 && !okv && !ohas && !okg && osl.isEmpty && oit == 0 && oeq && oeqr && omap && oenc.isEmpty
+    pure { agree, spec := okFail spec, nontrivial := which != oS, branches := tags [(true, which), (true, "vs-" ++ oS)],
+           model := s!"{setLen l} 0 0 0 - {setLen l} 1 1 1 x" }
+  | ["iter", _, kvsS, kS], [gotS, idxS, lenS, afterS, extraS, slS, nxtS] => do
+    let kvs ← parseKVs kvsS
+    let k ← kS.toNat?
+    let ogot ← parseKVs gotS
+    let oidx ← b01 idxS
+    let olen ← lenS.toNat?
+    let oafter ← parseKVs afterS
+    let oextra ← b01 extraS
+    let osl ← parseKVs slS
+    let onxt ← b01 nxtS
+    let s := newSet kvs
+    let d := Iter.drain (s.length + 1) { storage := s }
+    let it2 := (List.range k).foldl (fun (it : Iter) _ => it.next.1) { storage := s }
+    let ts := it2.toSlice
+    let agree := d.2 == ogot && oidx && olen == s.length && [d.1.attribute] == oafter && d.1.next.2 == oextra &&
+      ts.2 == osl && ts.1.next.2 == onxt
+    let ref := Spec.canon kvs
+    let spec := ogot == ref && oidx && olen == ref.length && oafter == [zeroKV] && !oextra && osl == ref && !onxt
+    let br := tags [(s.isEmpty, "empty"), (decide (k == 0), "fresh"), (decide (0 < k && k ≤ s.length), "mid"),
+      (decide (k > s.length), "past-end"), (s.length > 10, "reflect")]
+    pure { agree, spec := okFail spec, nontrivial := !s.isEmpty, branches := br,
+           model := s!"{showKVs d.2} 1 {s.length} {showKVs [d.1.attribute]} {show01 d.1.next.2} {showKVs ts.2} {show01 ts.1.next.2}" }
   | "seq" :: _ :: ops, _ => stepSeq ops obs
   | _, _ => none)
 
